@@ -17,6 +17,7 @@
 struct gm_params {
 	uint64_t seed;
 	unsigned n_lps, n_types, max_fan, thr_base, thr_spread, use_rng, mem_ops, t0_events;
+	unsigned skew; /* LPs tick on very different time scales: some run far ahead of the GVT with sparse histories */
 	unsigned lib; /* also use the floating-point library RNG API (no Lean twin: judged by the implementation-side oracles only) */
 };
 static struct gm_params GM;
@@ -216,7 +217,7 @@ static void gm_process(lp_id_t me, simtime_t now, unsigned type, const void *pl,
 	uint64_t a = st->acc;
 	uint64_t hh = gm_mix(GM.seed ^ ((uint64_t)type * 0x9e3779b1ULL));
 	if(type == GM.n_types - 1) {
-		unsigned dq = GM_DELAYS_Q[1 + (hh >> 8) % 6];
+		unsigned dq = GM_DELAYS_Q[1 + (hh >> 8) % 6] * (1 + (me % 3) * GM.skew);
 		gm_send(me, tq + dq, type, GM_SIZES[(hh >> 24) % 8], a, (hh >> 40) & 1);
 	}
 	if(type == 0)
